@@ -18,9 +18,16 @@ def leDec : Bytes → Nat
   | [] => 0
   | b :: bs => b.toNat + 256 * leDec bs
 
-/-- `io.ReadFull(r, buf[:n])`: the next `n` bytes and the rest, or `none` (EOF / unexpected EOF). -/
-def take? (n : Nat) (bs : Bytes) : Option (Bytes × Bytes) :=
-  if n ≤ bs.length then some (bs.take n, bs.drop n) else none
+/-- `io.ReadFull(r, buf[:n])`: the next `n` bytes and the rest, or `none` (EOF / unexpected EOF).
+    One pass over the `n` bytes taken (the length of the remaining input is never computed, so reading a
+    long message field by field stays linear). -/
+def take? : Nat → Bytes → Option (Bytes × Bytes)
+  | 0, bs => some ([], bs)
+  | _ + 1, [] => none
+  | n + 1, b :: bs =>
+    match take? n bs with
+    | some (a, r) => some (b :: a, r)
+    | none => none
 
 /-- `ReadUint8/16/32/64` for `k = 1,2,4,8`. -/
 def readLE (k : Nat) (bs : Bytes) : Option (Nat × Bytes) :=
@@ -92,17 +99,30 @@ theorem leEnc_leDec (bs : Bytes) : leEnc bs.length (leDec bs) = bs := by
     simp only [List.length_cons, leEnc, leDec, ofNat_toNat_mod, h1, ih]
 
 theorem take?_append (a rest : Bytes) : take? a.length (a ++ rest) = some (a, rest) := by
-  simp [take?]
+  induction a with
+  | nil => simp [take?]
+  | cons b a ih => simp [take?, ih]
 
 theorem take?_some {n : Nat} {bs a r : Bytes} (h : take? n bs = some (a, r)) :
     bs = a ++ r ∧ a.length = n := by
-  unfold take? at h
-  split at h
-  · simp only [Option.some.injEq, Prod.mk.injEq] at h
+  induction n generalizing bs a with
+  | zero =>
+    simp only [take?, Option.some.injEq, Prod.mk.injEq] at h
     obtain ⟨rfl, rfl⟩ := h
-    refine ⟨(List.take_append_drop n bs).symm, ?_⟩
-    simp [List.length_take]; omega
-  · simp at h
+    simp
+  | succ n ih =>
+    cases bs with
+    | nil => simp [take?] at h
+    | cons b bs =>
+      simp only [take?] at h
+      cases ht : take? n bs with
+      | none => simp [ht] at h
+      | some p =>
+        obtain ⟨a', r'⟩ := p
+        simp only [ht, Option.some.injEq, Prod.mk.injEq] at h
+        obtain ⟨rfl, rfl⟩ := h
+        obtain ⟨e1, e2⟩ := ih ht
+        exact ⟨by simp [e1], by simp [e2]⟩
 
 theorem readLE_enc (k n : Nat) (rest : Bytes) (h : n < 256 ^ k) :
     readLE k (leEnc k n ++ rest) = some (n, rest) := by
